@@ -59,9 +59,11 @@ class GeometricMTF(SpotDiagram):
 
         if wavelength == 'primary':
             wavelength = optic.primary_wavelength
+        # diffraction cut-off; wavelength must be converted to mm for
+        # frequency units cycles/mm
+        self.cutoff = 1 / (wavelength * 1e-3 * optic.paraxial.FNO())
         if max_freq == 'cutoff':
-            # wavelength must be converted to mm for frequency units cycles/mm
-            self.max_freq = 1 / (wavelength * 1e-3 * optic.paraxial.FNO())
+            self.max_freq = self.cutoff
         else:
             self.max_freq = max_freq
 
@@ -104,7 +106,9 @@ class GeometricMTF(SpotDiagram):
                 the scale factor.
         """
         if self.scale:
-            phi = np.arccos(self.freq / self.max_freq)
+            # the diffraction limit is a function of f / cut-off, whatever
+            # frequency range was asked for (zero beyond the cut-off)
+            phi = np.arccos(np.clip(self.freq / self.cutoff, 0, 1))
             scale_factor = 2 / np.pi * (phi - np.cos(phi) * np.sin(phi))
         else:
             scale_factor = 1
